@@ -199,4 +199,37 @@ example : (pipeReqs { vpn := true, srcIP := [10, 0, 0, 1], srcMAC := [] } (.tcp 
       [{ dst := some (.v4 167772162 true), port := 443 }]).map (fun q => probeTarget true (.tcp 2) q.frame)
       = [some (167772162, 443)] := by decide
 
+/-! a complete engine run of the packet pipeline as the wire theorems quantify over it (`PacketRunOf` is
+    satisfiable): VPN link, `tcp syn`, the stream [probe of 10.0.0.2:443, error request], one worker, no failures;
+    the trace is accepted by the step function of the CURRENT topology, ends terminated, and the one frame handed
+    to the writer reads back as 10.0.0.2:443 (tests, labelled as such) -/
+def exLink : Link := { vpn := true, srcIP := [10, 0, 0, 1], srcMAC := [] }
+def exRnd : Nat → Rnd := fun _ => ⟨1, 2, 3, 4⟩
+def exRs : List Req := [{ dst := some (.v4 167772162 false), port := 443 }, { err := some .ip }]
+def exInp : Pipe.Input :=
+  { n := 1, reqs := pipeReqs exLink (.tcp 2) exRnd exRs, rcvErrs := [], wfail := fun _ _ => false }
+def exEvs : List Pipe.Event :=
+  [.envSend, .envSend, .envClose, .worker 0 .recv, .worker 0 (.get 0), .worker 0 .fill, .worker 0 .send,
+   .worker 0 .recv, .worker 0 .send, .worker 0 .recv, .worker 0 .close,
+   .mux 0 .recv, .mux 0 .send, .mux 0 .recv, .mux 0 .send, .mux 0 .recv, .mux 0 .done, .closer .wait, .closer .close,
+   .sender .recv, .sender .call, .sender .call, .sender .recv, .sender .report, .sender .recv, .sender .close1,
+   .sender .close2, .rcvClose, .emux false .recv, .emux false .send, .emux false .recv, .emux false .done,
+   .emux true .recv, .emux true .done, .ecloser .wait, .ecloser .close, .consume]
+def exSt : Pipe.Sys := (Pipe.run C07.cfg exInp (Pipe.init exInp) exEvs).getD (Pipe.init exInp)
+
+example : (Pipe.run C07.cfg exInp (Pipe.init exInp) exEvs).isSome = true ∧ (∀ e ∈ exEvs, e ≠ Pipe.Event.cancel) ∧
+    Pipe.Terminated exSt ∧ (∀ w ∈ exSt.written, w.2 = false) ∧
+    (handed exSt).map (probeTarget true (.tcp 2)) = [some (167772162, 443)] ∧
+    reqCauses exRs exSt.errsOut = [some Cause.ip] := by decide
+
+example : PacketRunOf C07.cfg exLink (.tcp 2) exRs ⟨exRnd, exInp, exSt⟩ :=
+  ⟨fun _ => by simp [RndOK, exRnd], rfl, by decide,
+   Proofs.Compose.reachableNC_run exEvs _ _ (by decide) .init (by
+     have h : (Pipe.run C07.cfg exInp (Pipe.init exInp) exEvs).isSome = true := by decide
+     unfold exSt
+     cases hr : Pipe.run C07.cfg exInp (Pipe.init exInp) exEvs with
+     | none => simp [hr] at h
+     | some s => rfl),
+   Or.inl (by decide)⟩
+
 end SxVerif.C01
